@@ -49,7 +49,7 @@ def vkey(v):
 
 
 class Node(object):
-    __slots__ = ("id", "values", "parents", "table", "_guards", "name", "zdefs", "depth", "__weakref__")
+    __slots__ = ("id", "values", "parents", "table", "_guards", "name", "zdefs", "depth", "ite", "__weakref__")
 
     def __init__(self, values, parents=(), table=None, name=None, zdefs=None):
         self.id = next(_ids)
@@ -60,6 +60,7 @@ class Node(object):
         self.name = name or ("n%d" % self.id)
         self.zdefs = zdefs  # for bridging variables: list of z3 formulas defining the guards
         self.depth = 1 + max([p.depth for p in self.parents], default=0)
+        self.ite = None  # (condition node, then value, else value) when built by ite()
 
     def __repr__(self):
         vs = ", ".join(repr(v) for v in self.values[:6])
@@ -291,7 +292,9 @@ def ite(c, a, b):
         table[0] = ib
     if len(vals) == 1:
         return vals[0]
-    return Node(vals, parents, table)
+    r = Node(vals, parents, table)
+    r.ite = (c, a, b)
+    return r
 
 
 def relation(a, b, pairs):
@@ -366,6 +369,11 @@ def discover_aliases(targets, constraints=(), max_pairs=400):
         return r
 
     classes = {}
+    # base variables are representatives of their own (identity) partition
+    for n in cone.values():
+        if n.is_var and n.zdefs is None and len(n.values) >= 2:
+            ident = np.arange(len(n.values), dtype=np.int32)
+            classes[((n.id,), hashlib.md5(ident.tobytes()).hexdigest())] = (n, np.arange(len(n.values)))
     for n in sorted(cone.values(), key=lambda n: (n.depth, n.id)):
         if n.is_var or len(n.values) < 2:
             continue
@@ -397,6 +405,45 @@ def discover_aliases(targets, constraints=(), max_pairs=400):
         if x.id == n.id or n.id in ancestors(x):
             continue
         # n == perm(x): x's value index -> n's value index (unused x values map to 0)
+        perm = np.zeros(len(x.values), dtype=np.int32)
+        for bx, bn in zip(xblocks.tolist(), block_val.tolist()):
+            perm[bx] = bn
+        ALIAS[n.id] = (x, perm)
+    # congruence: nodes with the same (representative) parents and the same table up to a
+    # renaming of their own values are equal -- exact, no grid evaluation needed
+    cong = {}
+    for n in sorted(cone.values(), key=lambda n: (n.depth, n.id)):
+        if n.is_var or n.id in ALIAS or len(n.values) < 2:
+            continue
+        reps = []
+        tab = n.table
+        ok = True
+        for k, p in enumerate(n.parents):
+            a = ALIAS.get(p.id)
+            if a is None:
+                reps.append(p.id)
+            else:
+                x, perm = a
+                if x.id in ALIAS:
+                    ok = False
+                    break
+                reps.append(x.id)
+                tab = np.take(tab, perm, axis=k)  # index by the representative's value index
+        if not ok or len(set(reps)) != len(reps) or tab.size > 3_000_000:
+            continue
+        flat = tab.reshape(-1)
+        uniq, first, inv = np.unique(flat, return_index=True, return_inverse=True)
+        order = np.argsort(first)
+        rank = np.empty_like(order)
+        rank[order] = np.arange(len(order))
+        canon = rank[inv].astype(np.int32)
+        key = (tuple(reps), tab.shape, hashlib.md5(canon.tobytes()).hexdigest())
+        block_val = uniq[order]
+        rep = cong.get(key)
+        if rep is None:
+            cong[key] = (n, block_val)
+            continue
+        x, xblocks = rep
         perm = np.zeros(len(x.values), dtype=np.int32)
         for bx, bn in zip(xblocks.tolist(), block_val.tolist()):
             perm[bx] = bn
@@ -579,13 +626,13 @@ MAX_CUT_GRID = 8_000_000
 
 
 def find_violations(pred, constraints, limit=50, stats=None):
-    r = _find_violations(pred, constraints, limit, stats)
+    r = _find_violations(pred, constraints, limit, stats, factored=False)
     if r[0] == "toobig" and isinstance(pred, Node):
         # look for proven equalities between intermediate nodes of both sides and retry
         ALIAS.clear()
         try:
             if discover_aliases([pred] + [c for c in constraints if isinstance(c, Node)]):
-                r2 = _find_violations(pred, constraints, limit, stats)
+                r2 = _find_violations(pred, constraints, limit, stats, factored=False)
                 if r2[0] == "valid":
                     r2[1]["aliases"] = len(ALIAS)
                     return r2
@@ -593,10 +640,12 @@ def find_violations(pred, constraints, limit=50, stats=None):
                     return r2[:5] + (False,)
         finally:
             ALIAS.clear()
+        # last resort: factored evaluation of a large grid
+        r = _find_violations(pred, constraints, limit, stats, factored=True)
     return r
 
 
-def _find_violations(pred, constraints, limit=50, stats=None):
+def _find_violations(pred, constraints, limit=50, stats=None, factored=True):
     """
     Decide `constraints => pred` by explicit evaluation on a cut.
     Returns ("valid", info) | ("violations", cut, points, count, None, exact) | ("toobig", info)
@@ -723,11 +772,11 @@ def _find_violations(pred, constraints, limit=50, stats=None):
         if not bad.any():
             return ("valid", {"grid": g, "exact_cut": False, "cut": [c.name for c in fc]})
     # (4) factored evaluation when the contracted cut is too large as a full product
-    if gc is not None and grid_size(gc) > MAX_CUT_GRID:
+    if factored and gc is not None and grid_size(gc) > MAX_CUT_GRID:
         r = _factored(pred, cons, gc, gexact, limit, stats)
         if r is not None:
             return r
-    if last is not None:
+    if last is not None and (factored or gc is None or grid_size(gc) <= MAX_CUT_GRID):
         return report(*last)
     return ("toobig", {"grid": grid_size(gc) if gc is not None else bg})
 
